@@ -59,7 +59,7 @@ chk("C16", "E6-dkg", "model_checking",
     "Trusted: the identity is what ClientInfoInterceptor puts in the context (C19).",
     "explicit-state BFS of the implementation with identity x message grid in every state", "5/C16")
 chk("C17", "E6-dkg", "model_checking",
-    "BFS over event sequences (prepare/execute/contribute from participants and from a configured non-participant peer/commit/abort for two account names, clock advance) delivered to one real instance through its receiver handler, with lifecycle monitors from the property text on every transition and the harness's own record of who contributed.",
+    "BFS over event sequences (prepare/execute/contribute from participants and from a configured non-participant peer/commit/abort for two account names, clock advance) delivered to one real instance through its receiver handler, with lifecycle monitors from the property text on every transition and the harness's own record of who contributed (clock advances far past, just past and well short of the timeout). In addition commit/abort/prepare messages for one name are delivered to the instance at the same time under the cooperative scheduler (the service's generations-table lock goes through the sync shim): every interleaving is executed and the results, the session table and the account must be explained by some order of the messages under the sequential lifecycle.",
     "Trusted: threshold 2 of 3 only; session fate after a failed commit is unspecified and follows the implementation.",
     "explicit-state BFS of the implementation with lifecycle monitors on every transition", "5/C17")
 chk("C14", "E6-dkg", "exploration",
